@@ -98,3 +98,10 @@ func VPH_C13_redirect() {
 		vp.Assert(got.RawPath == wantRaw, "escaped-path-kept")
 	}
 }
+
+func vpReqURL(label string) *url.URL {
+	p := vp.String(label + "-path")
+	vp.Assume(strings.HasPrefix(p, "/") && !strings.Contains(p, "$"))
+	q := vp.String(label + "-query")
+	return &url.URL{Path: p, RawQuery: q, Host: "h"}
+}
